@@ -73,6 +73,10 @@ def seeded(ctx, rng, per_solver):
             t0, t1, dtmin, dtmax, tol, span = ivpgen.random_config(rng, solver, long_ok=(solver != "euler"))
             dim = rng.randint(1, 4)
             kinds = ivpgen.SMOOTH_KINDS + (["rough"] if rng.random() < 0.3 else [])
+            if solver == "euler" and dtmax > 0.05:
+                # explicit Euler with a step beyond its stability limit runs the quadratic families (y' = -c y^2, logistic)
+                # off to infinity in a few steps; "finite entries" is claimed for solves that stay finite
+                kinds = [k for k in kinds if k not in ("recip", "logistic")]
             rhs, y0, _ = ivpgen.system(rng, dim, span, t0, kinds=kinds)
             cases.append(ivpgen.base_case(0, solver, dim, t0, t1, dtmin, dtmax, tol, rhs, y0, origin="seeded",
                                           dyn=(rng.random() < 0.2), max_items=1000000,
